@@ -54,6 +54,7 @@ pub struct Live {
     pub shadow: Option<Ind>, // C04: a freshly constructed instance fed the same inputs since the last reset
     pub inputs: Vec<InRec>,  // C17: the real inputs since reset
     pub mem: usize,          // Memory(kind, p) from the specification (0 = unbounded)
+    pub pair: Option<Ind>,   // C09: a Maximum of the same period fed the same scalars as this Minimum
 }
 
 #[derive(Clone, Copy, Debug)]
@@ -279,7 +280,8 @@ impl<'a> Run<'a> {
                     let r = catch_unwind(AssertUnwindSafe(|| Ind::new(&cfg.kind, &cfg.per, cfg.m)));
                     match r {
                         Ok(Ok(ind)) => {
-                            let l = Live { ind, t: 0, mag: 0.0, strict: 0, eff: 0, cmax: 1.0, tainted: false, dead: false, len0: None, last: vec![], last_in: 0.0, shadow: None, inputs: vec![], mem: cfg.mem, cfg };
+                            let l = Live { ind, t: 0, mag: 0.0, strict: 0, eff: 0, cmax: 1.0, tainted: false, dead: false, len0: None, last: vec![], last_in: 0.0, shadow: None, inputs: vec![], mem: cfg.mem,
+                                pair: if ctx.prop == "C09" && cfg.kind == "MIN" { Ind::new("MAX", &cfg.per, 1.0).ok() } else { None }, cfg };
                             self.insts.insert(i, l);
                         }
                         Ok(Err(e)) => ctx.violate(self.line_no, self.unit, idx, None, "ctor-rejected-valid", json!({"cfg": cfg.key, "err": e})),
@@ -315,6 +317,9 @@ impl<'a> Run<'a> {
                         l.len0 = None;
                         l.last.clear();
                         l.inputs.clear();
+                        if let Some(p) = l.pair.as_mut() {
+                            p.reset();
+                        }
                         if prop == "C04" {
                             let (k, p, m) = (l.cfg.kind.clone(), l.cfg.per.clone(), l.cfg.m);
                             l.shadow = catch_unwind(AssertUnwindSafe(|| Ind::new(&k, &p, m).ok())).ok().flatten();
@@ -549,6 +554,17 @@ impl<'a> Run<'a> {
         if prop == "C17" {
             l.inputs.push(inrec);
         }
+        if let (Some(p), InRec::S(x)) = (l.pair.as_mut(), inrec) {
+            if !l.tainted {
+                if let Some(mx) = p.next_s(x) {
+                    ctx.stats.ord_checked += 1;
+                    if !(raw[0] <= mx[0]) {
+                        let lc = l.clone();
+                        ctx.violate(self.line_no, &unit, idx, Some(&lc), "minimum-above-maximum", json!({"min": raw[0], "max": mx[0]}));
+                    }
+                }
+            }
+        }
         // ---- C02, long recursions: the whole memory of an EMA is its last output (spec lemma: the reference
         //      state of EMA is that one rational), so a fresh EMA fed [previous output, x_t] must return out_t
         if prop == "C02" && l.cfg.kind == "EMA" && name == "s" && !l.tainted && l.last.len() == 1 && l.t >= 2 {
@@ -709,13 +725,17 @@ impl<'a> Run<'a> {
         let mfac = 1.0 + l.cfg.m.abs();
         let fields = o["f"].as_array().cloned().unwrap_or_default();
         // a tie between derived values is only preserved by an exact change of unit
-        let exact_unit = unit.b == 0.0 && unit.a > 0.0 && (unit.a.to_bits() & ((1u64 << 52) - 1)) == 0;
+        let exact_unit = unit.b == 0.0 && unit.a > 0.0 && (unit.a.to_bits() & ((1u64 << 52) - 1)) == 0 && !unit.warped();
         let tie_skip = o["ts"].as_bool().unwrap_or(false) && !exact_unit;
+        if unit.warped() {
+            // a warped unit carries no exact values: conditioning derived from them is unknown
+            c = f64::INFINITY;
+        }
         if tie_skip {
             ctx.stats.skipped_tie += 1;
         }
         // ---- value comparison against the exact reference
-        if has(&prop, "value") && !tie_skip {
+        if has(&prop, "value") && !tie_skip && !unit.warped() {
             if ctx.distinct.len() < 50_000_000 {
                 ctx.distinct.insert(h2(l.strict, &[l.t as i64, l.cfg.per.iter().sum::<usize>() as i64], l.cfg.kind.len() as u8));
             }
@@ -766,10 +786,11 @@ impl<'a> Run<'a> {
         // ---- C07: documented range whenever the reference denominator is non-zero
         if has(&prop, "range") {
             if let Some(rg) = range_of(&l.cfg.kind) {
+                let den_zero = den.1 != 0 && den.0 == 0;
                 let applies = match l.cfg.kind.as_str() {
                     "SLOW_STOCH" => true,
                     "FAST_STOCH" => true, // 50 on a zero range is in range as well
-                    _ => !den_undef,
+                    _ => !den_zero && !(den_undef && fields.iter().any(|f| rat(&f["r"]) == (1, 0))),
                 };
                 if applies {
                     let slack = if l.cfg.kind == "MFI" {
@@ -812,7 +833,7 @@ impl<'a> Run<'a> {
                 let dim = f["dim"].as_str().unwrap_or("ratio");
                 let g = got[k];
                 let kind = l.cfg.kind.as_str();
-                if (cls == "exact" || cls == "neutral") && matches!(kind, "FAST_STOCH" | "CCI" | "ROC" | "TR") {
+                if (cls == "exact" || cls == "neutral") && matches!(kind, "FAST_STOCH" | "CCI" | "ROC" | "TR") && !(tie_skip && kind == "CCI") {
                     let exp = image(&unit, r, dim);
                     if !num_eq(g, exp) {
                         ctx.violate(self.line_no, &unit, idx, Some(&l), "neutral-exact", json!({"expected": exp, "got": g}));
